@@ -143,6 +143,9 @@ class Exec:
         self.spec_funcs = {}
         self.havocked = []
         self.assumed = []          # textual list of assumptions used (opaque calls, models)
+        if getattr(fn_info, 'renamed', None):
+            self.assumed.append('extraction: locals alpha-renamed to the names the contract was written with (%s); the old names occur '
+                                'nowhere in the current function' % ', '.join('%s -> %s' % kv for kv in sorted(fn_info.renamed.items())))
         self.loop_ord = 0
         self.spec_mode = 0
         self.covers = []
@@ -228,6 +231,14 @@ class Exec:
     def run(self):
         st = State()
         fnode = self.fn.node
+        if self.contract.loops:
+            from .extract import structure_changed
+            why = structure_changed(self.fn.path, self.fn.qualname, fnode)
+            if why:
+                # loop contracts are keyed by loop ordinal: with a different loop structure they would be attached to the wrong
+                # loops and any refutation would be meaningless
+                raise Unsupported('the loop structure of the function changed since its contract was written (%s): '
+                                  'the loop contracts need re-anchoring' % why)
         self.bind_params(st, fnode)
         st.old = st.copy()
         if self.contract.theory is not None:
@@ -1398,6 +1409,13 @@ class Exec:
         raise Unsupported('unary op')
 
     def binop(self, op, a, b, st, node):
+        if isinstance(a, lib.SetVal) and isinstance(b, lib.SetVal) and isinstance(op, (ast.BitAnd, ast.BitOr, ast.Sub)):
+            ha, hb = a.has, b.has      # set operators: same models as .intersection / .union / .difference
+            if isinstance(op, ast.BitAnd):
+                return lib.SetVal(lambda x: band(ha(x), hb(x)))
+            if isinstance(op, ast.BitOr):
+                return lib.SetVal(lambda x: bor(ha(x), hb(x)))
+            return lib.SetVal(lambda x: band(ha(x), bnot(hb(x))))
         if isinstance(op, ast.Add):
             if isinstance(a, (list, tuple)) and isinstance(b, (list, tuple)) and type(a) == type(b):
                 return a + b
@@ -1537,6 +1555,12 @@ class Exec:
         return self.getitem(base, idx, st, node)
 
     def getitem(self, base, idx, st, node):
+        if isinstance(idx, SliceIx) and idx.start is None and idx.stop is None and idx.step == -1 and \
+                isinstance(base, (SeqVal, PyList, list, tuple)) or \
+                (isinstance(idx, SliceIx) and idx.start is None and idx.stop is None and idx.step == -1
+                 and isinstance(base, ArrayVal) and base.ndim == 1):
+            # xs[::-1] == list(reversed(xs))
+            return lib.b_list(self, st, lib.ReversedVal(base))
         if isinstance(base, OptVal):
             self.emit(st, 'not-none', z3.Not(base.is_none), node, 'subscript of a value that may be None')
             return self.getitem(base.some, idx, st, node)
@@ -2102,6 +2126,7 @@ class Exec:
         res = ArrayVal((K,), lambda q: at(SRC(to_int(q)), 'elt'), dtype_of_value(probe))
         # source position of the j-th kept element (composed with the source map of the sequence that was filtered)
         res.src = (lambda q: outer_src(SRC(to_int(q)))) if outer_src is not None else (lambda q: SRC(to_int(q)))
+        res.is_list = True      # immutable python list / generator value: keeps its source map when bound to a name
         return res
 
     # ---- calls --------------------------------------------------------------------------------
